@@ -370,6 +370,35 @@ func emissionSweep(res *ev.Result) {
 				})
 			}
 		}
+		if bl <= 250 && (bl <= 8 || bl%16 == 0) {
+			// hand-built response values whose byte-length field was left unset or is stale: whatever frame the encoder
+			// produces for them, its trailer must still be the CRC of the bytes before it
+			for _, stale := range []int{0, bl + 1, bl - 1} {
+				if stale < 0 || stale > 255 || stale == bl {
+					continue
+				}
+				st := uint8(stale)
+				tolerant := func(name string, f func() []byte) {
+					defer func() { recover() }() // an encoder may refuse an inconsistent value by panicking; emitting a bad CRC is the point here
+					check(name, f())
+				}
+				tolerant(fmt.Sprintf("sweep-resp-fc1-b%d-field%d", bl, stale), func() []byte {
+					return packet.ReadCoilsResponseRTU{ReadCoilsResponse: packet.ReadCoilsResponse{UnitID: 1, CoilsByteLength: st, Data: d}}.Bytes()
+				})
+				tolerant(fmt.Sprintf("sweep-resp-fc2-b%d-field%d", bl, stale), func() []byte {
+					return packet.ReadDiscreteInputsResponseRTU{ReadDiscreteInputsResponse: packet.ReadDiscreteInputsResponse{UnitID: 2, InputsByteLength: st, Data: d}}.Bytes()
+				})
+				tolerant(fmt.Sprintf("sweep-resp-fc3-b%d-field%d", bl, stale), func() []byte {
+					return packet.ReadHoldingRegistersResponseRTU{ReadHoldingRegistersResponse: packet.ReadHoldingRegistersResponse{UnitID: 3, RegisterByteLen: st, Data: d}}.Bytes()
+				})
+				tolerant(fmt.Sprintf("sweep-resp-fc4-b%d-field%d", bl, stale), func() []byte {
+					return packet.ReadInputRegistersResponseRTU{ReadInputRegistersResponse: packet.ReadInputRegistersResponse{UnitID: 4, RegisterByteLen: st, Data: d}}.Bytes()
+				})
+				tolerant(fmt.Sprintf("sweep-resp-fc23-b%d-field%d", bl, stale), func() []byte {
+					return packet.ReadWriteMultipleRegistersResponseRTU{ReadWriteMultipleRegistersResponse: packet.ReadWriteMultipleRegistersResponse{UnitID: 10, RegisterByteLen: st, Data: d}}.Bytes()
+				})
+			}
+		}
 		if bl <= 120 {
 			safe(fmt.Sprintf("sweep-resp-fc17-id%d", bl), func() []byte {
 				return packet.ReadServerIDResponseRTU{ReadServerIDResponse: packet.ReadServerIDResponse{UnitID: 9, Status: 0xFF, ServerID: d, AdditionalData: pat(bl % 7)}}.Bytes()
